@@ -136,7 +136,8 @@ verus_unit("oodv", "oodv", ["C03", "C06", "C12", "C04", "C05"], [
     "FriProofLayer::parse (every byte content of the value and path vectors, every folding factor: Ok exactly when the value bytes are a positive whole number of queries - length a multiple of ELEMENT_BYTES * folding_factor -, decode to queries * folding_factor elements with nothing left over, and the path bytes decode, with nothing left over, to a batch Merkle proof for the per-query hashes at depth log2(domain size); the results are those elements and that proof; no overflow, no out-of-range index; the iter_mut loop is written with an index - listed rewrite)",
     "FriProof::parse_layers (every number of layers, every content, every power-of-two domain size and folding factor: Ok exactly when every layer's domain D / ff^i can still be folded and the layer is a canonical encoding for the folded domain D / ff^(i+1); the results are the layers' values and batch proofs in order; the enumerate index - used in error texts only - is dropped: listed rewrite)",
     "OodFrame::set_trace_states (every frame: the trace-state section is the byte 2 followed by the encodings of the current / next evaluations interleaved per column, the Lagrange section the number of Lagrange kernel values followed by their encodings, and the returned digest - what the prover channel reseeds the coin with - is hash_elements of exactly those values in that order, i.e. TraceOodFrame::hash; other sections untouched)",
-    "OodFrame::set_constraint_evaluations (stores exactly the encodings of the evaluations; other sections untouched)"])
+    "OodFrame::set_constraint_evaluations (stores exactly the encodings of the evaluations; other sections untouched)",
+    "Queries::new (every non-empty list of equally long rows: the value bytes are the encodings of the rows in order, the path bytes are serialize_nodes of the batch proof; the three assertions are the documented pre-conditions)"])
 
 
 verus_unit("proofserdev", "proofserdev", ["C12", "C03"], [
